@@ -29,7 +29,7 @@ ASSUMPTIONS = [
     'states of operators outside the evaluated/ensembled scope (upstream of the splitter by the documented scoping rule) are '
     'not subject to the no-leak predicate',
 ]
-FLOORS = {'eval': 0.2, 'stack': 0.2, 'folds>=3': 0.2, 'scope-stateful': 0.3, 'splitter': 0.2}
+FLOORS = {'eval': 0.15, 'stack': 0.15, 'folds>=3': 0.12, 'scope-stateful': 0.3, 'splitter': 0.2}
 LEVEL_TEXT = (
     'Generated-configuration search with two oracles: (1) exact equality of the metric / stacked-train / reduced-apply terms '
     'with the denotational model, and (2) an independent provenance predicate walked over the *observed* terms: every state '
